@@ -40,3 +40,34 @@ TECHNIQUE = {
     'C15': 'static analysis: path-sensitive validation-before-mutation (dirty raise) analysis + decision tables over guard orderings',
 }
 NOT_APPLICABLE = {}
+
+P('C02', 'other',
+  'Static rules over per-path symbolic summaries. Decided: S1 who-may-write the quantity fields, current_price and the positions table; '
+  'S2 every path of Position.transact changes buy-sell by exactly the fill quantity (canonical arithmetic; the zero-quantity idiom tabled), '
+  'opening a position yields net = fill quantity; S3 transact_position inserts iff the asset is not held and deletes iff the stored '
+  'position\'s net quantity tests zero, on every path; S4 the holdings report iterates every position and reports net_quantity / market_value / '
+  'pnl properties; S5 market_value = current_price*net, total_market_value sums it over all positions, total_equity adds cash, every fill and '
+  'every accepted mark stores the given price, and the broker marks every held asset of every portfolio at the mid price of the update time. '
+  'Together these are the one-step induction for the property; exactness of float sums is not decided.')
+TECHNIQUE['C02'] = 'static analysis: ownership scan + per-path symbolic summaries (net-quantity delta, presence decision table, valuation formulas)'
+
+P('C03', 'other',
+  'Static rules: the P&L properties are inlined per sign case of the running position (long/short/flat x opposite side empty), branch '
+  'tests decided from the case, and the resulting return expressions rewritten to rational-function normal form (no solver). Decided over '
+  'the reals, per branch, for the code as written: S1 total = realised + unrealised; total = current_price*net + avg_sold*sell_q - '
+  'avg_bought*buy_q - commissions; unrealised = (price - average cost incl. open-side commission) * net; readers depend on the seven '
+  'accounting fields only. S2 _transact_buy/_sell keep average*quantity = sum of considerations and add quantity and commission; the '
+  'dispatch hands (|q|, price, commission) to the right side; the opening fill seeds the accumulators. S3 re-marking writes only price and '
+  'clock, and realised P&L / quantities do not read them. Not decided: floating-point behaviour over long sequences.')
+TECHNIQUE['C03'] = 'static analysis: per-branch symbolic inlining of the P&L properties + rational-function normal form identities'
+
+P('C04', 'proof',
+  'All-paths static argument on SimulatedBroker.submit_order / update / _execute_order and SimulatedExchange (per-path symbolic summaries, '
+  'private helpers inlined, no sampling of the program). S1 submitting writes only one put of the given order on its portfolio queue. S2 every '
+  'dequeue and every fill is dominated by is_open_at_datetime(dt) being true at the update time; the out-of-hours path writes only clocks '
+  'and marks. S3 put only in submit_order, get only in update, FIFO queue.Queue, the drain visits every portfolio and every queue until '
+  'empty with no early exit, the executed batch is exactly the drained list and each element is executed exactly once against its own '
+  'portfolio. S4 one Transaction per executed order with the full order quantity. S5 stable builtin sort, key = the order\'s direction, '
+  'ascending. S6 is_open_at_datetime evaluated as a decision table over weekday 0..6 x time of day (boundary grid; every minute in the '
+  'thorough tier) equals weekday<=4 and 14:30<=t<21:00. Known blemish recorded under C15 (a refused fill loses the drained orders).')
+TECHNIQUE['C04'] = 'static analysis: guard-dominance and exactly-once path rules on symbolic summaries, who-may-call tables, exhaustive decision table of the hours predicate'
